@@ -16,7 +16,7 @@ def run(e):
         if b.returncode!=0: return e["name"],"nobuild",[(b.stdout+b.stderr)[-300:]]
         alarms=[]
         for prop in PROPS:
-            c=subprocess.run([os.path.join(V,"bin","uxcheck"),"-prop",prop,"-tier","quick","-repo",dst,"-verif",V,"-no-evidence"],env=ENV,capture_output=True,text=True)
+            c=subprocess.run([os.environ.get("UXBIN",os.path.join(V,"bin","uxcheck")),"-prop",prop,"-tier","quick","-repo",dst,"-verif",V,"-no-evidence"],env=ENV,capture_output=True,text=True)
             if c.returncode!=0:
                 lines=[l.strip() for l in (c.stdout+c.stderr).splitlines() if l.startswith("  violated") or l.startswith("UNDECIDED")]
                 alarms.append("%s exit=%d %s"%(prop,c.returncode," | ".join(lines)[:400]))
